@@ -328,10 +328,11 @@ pub fn widewindow(ctx: &Ctx) -> Stats {
                 }
             }
         }
-        if len > w + 10 && rep % 6 != 4 {
+        if len > w + m + 10 && rep % 6 != 4 {
             // a unique smallest m-mer (all A) somewhere in the middle: every window that contains it has minimiser 0, so the
             // runs around it begin and end exactly one window length away
-            let p = rng.usize(len / 3, 2 * len / 3);
+            // (placed beyond the first window, so that some windows do not contain it)
+            let p = rng.usize(w + 1, len - m);
             for b in seq.iter_mut().skip(p).take(m) {
                 *b = b'A';
             }
